@@ -559,6 +559,31 @@ func (r *stateRun) apply(op StateOp) {
 		if !r.compare(cp, cm, "copy-changed-with-original") {
 			return
 		}
+		// changes made and reverted inside the copy leave it exactly as it was - pending
+		// (not yet finalised) changes it inherited from the original included
+		snap := cp.Snapshot()
+		for i := 0; i < nAddrs; i++ {
+			cp.AddBalance(addrOf(i), new(big.Int)) // touches an empty account
+			if (op.Slot+i)%3 == 0 {
+				cp.CreateAccount(addrOf(i)) // re-creation of an existing account, or a new one
+			}
+			if (op.Slot+i)%2 == 0 {
+				cp.AddBalance(addrOf(i), big.NewInt(11))
+				cp.SetState(addrOf(i), slotOf(op.Slot+i), common.BigToHash(big.NewInt(77)))
+			}
+		}
+		cp.RevertToSnapshot(snap)
+		if !r.compare(cp, cm, "copy-changed-by-reverted-changes") {
+			return
+		}
+		probe, pm := cp.Copy(), cm.clone()
+		probeRoot := probe.IntermediateRoot(r.flag())
+		pm.finalise(r.flag(), r.existsFn(probe))
+		if want := pm.refRoot(); probeRoot != want {
+			r.add("copy-root-differs-from-reference/after-reverted-changes-in-the-copy", "a copy took over pending changes, made further changes and reverted them; IntermediateRoot of (a copy of) it = %x, reference root of its content = %x", probeRoot, want)
+			return
+		}
+		r.col.Inc("probe_reverted_changes_inside_a_copy")
 		// ... and the other way round: diverging writes on the copy (storage of every
 		// account, balances), hashed there, must not leak into the original
 		for i := 0; i < nAddrs; i++ {
